@@ -90,9 +90,9 @@ LATTICES = {"3x3": (3, 3), "2x2": (2, 2), "3x2": (3, 2)}
 
 def _track_spaces(tier, variant):
     """[(fixes, lattice name)]"""
-    sp = [(5, "3x3"), (6, "2x2")]
+    sp = [(5, "3x2"), (6, "2x2")]
     if tier == "thorough":
-        sp += [(7, "2x2"), (6, "3x2")]
+        sp += [(5, "3x3"), (7, "2x2"), (6, "3x2")]
     return sp
 
 
@@ -163,18 +163,8 @@ def judge(ctx, site, case, lst, M, n, direction, oblige=True):
     """The answer `lst` of optimalPartition for matrix M (n candidates) in `direction`.  -> (ok, nontrivial)"""
     lo, hi, at_lo, at_hi = brute(M, n)
     nontrivial = lo != hi
-    if not valid_list(lst, n):
-        ctx.violation("%s/not-an-increasing-list-from-first-to-last-candidate" % site, case,
-                      {"returned": lst, "n": n})
-        return False, nontrivial
-    got = value_of(M, lst)
     exp, best = (lo, at_lo) if direction == MINI else (hi, at_hi)
-    if abs(got - exp) > 1e-9 * max(1.0, abs(exp)):
-        key = "%s/%s/%s" % (site, DIRNAME[direction], "not-a-minimum" if direction == MINI else "not-a-maximum")
-        ctx.violation(key, case, {"returned": [int(v) for v in lst], "value": got, "optimum": exp,
-                                  "an_optimal_list": list(best[0]), "matrix": [r[:n] for r in M[:n]]})
-        return False, nontrivial
-    if oblige and nontrivial:
+    if oblige and nontrivial:            # properties of the matrix alone, recorded whatever the implementation answers
         ctx.oblige("direction_matters")
         if len(best) >= 2:
             ctx.oblige("tie_between_optimal_lists")
@@ -182,6 +172,16 @@ def judge(ctx, site, case, lst, M, n, direction, oblige=True):
             ctx.oblige("optimum_is_direct_segment")
         if min(len(l) for l in best) >= 4:
             ctx.oblige("optimum_uses_two_interior_breaks")
+    if not valid_list(lst, n):
+        ctx.violation("%s/not-an-increasing-list-from-first-to-last-candidate" % site, case,
+                      {"returned": lst, "n": n})
+        return False, nontrivial
+    got = value_of(M, lst)
+    if abs(got - exp) > 1e-9 * max(1.0, abs(exp)):
+        key = "%s/%s/%s" % (site, DIRNAME[direction], "not-a-minimum" if direction == MINI else "not-a-maximum")
+        ctx.violation(key, case, {"returned": [int(v) for v in lst], "value": got, "optimum": exp,
+                                  "an_optimal_list": list(best[0]), "matrix": [r[:n] for r in M[:n]]})
+        return False, nontrivial
     return True, nontrivial
 
 
